@@ -1,18 +1,27 @@
 #!/bin/bash
-# usage: tools/mutest.sh <patch-file> <prop>...   -- applies a patch to /repo, runs the repo tests and the given checks, reverts.
+# usage: tools/mutest.sh <patch-file> <prop>...
+# Applies the patch to a scratch copy of /repo (never to /repo itself), runs the repository's own tests there,
+# then the given checks against the copy (VERIF_REPO), and removes the copy.
 set -u
 export GOFLAGS=-mod=mod GOPROXY=off GOSUMDB=off GOTOOLCHAIN=local
 patch=$(readlink -f "$1"); shift
-cd /repo || exit 2
-if ! git apply --check "$patch" 2>/dev/null; then echo "PATCH DOES NOT APPLY: $patch"; exit 2; fi
-git apply "$patch"
-trap 'cd /repo && git checkout -- . ' EXIT
+scratch=/root/scratch-mut/$$
+rm -rf "$scratch"; mkdir -p "$scratch"
+trap 'rm -rf "$scratch"' EXIT
+git -C /repo archive HEAD | tar -x -C "$scratch"
+(cd /repo && git diff HEAD) | (cd "$scratch" && patch -p1 -s 2>/dev/null) || true
+cd "$scratch"
+if ! patch -p1 -s --dry-run < "$patch" >/dev/null 2>&1; then echo "PATCH DOES NOT APPLY: $patch"; exit 2; fi
+patch -p1 -s < "$patch"
 if go build ./... 2>/dev/null; then echo "builds: yes"; else echo "builds: NO"; fi
-if go test -vet=off -count=1 ./... >/tmp/mutest.$$.log 2>&1; then echo "repo tests: pass"; else echo "repo tests: FAIL"; grep -E "^(---|FAIL)" /tmp/mutest.$$.log | head -5; fi
-rm -f /tmp/mutest.$$.log
+ok=0; for i in 1 2 3; do if go test -vet=off -count=1 ./... >"$scratch/.test.log" 2>&1; then ok=1; break; fi; done
+if [ $ok = 1 ]; then echo "repo tests: pass"; else echo "repo tests: FAIL"; grep -E "^(---|FAIL)" "$scratch/.test.log" | head -5; fi
+rm -f "$scratch/.test.log"
 cd /verif
 for p in "$@"; do
-  out=$(VERIF_BUDGET_S=${VERIF_BUDGET_S:-200} ./bin/verif check "$p" 2>&1); rc=$?
+  ev=$(mktemp -d)
+  out=$(VERIF_REPO="$scratch" VERIF_EVIDENCE_DIR="$ev" VERIF_REPLAY_DIR="$ev" VERIF_BUDGET_S=${VERIF_BUDGET_S:-200} ./bin/verif check "$p" 2>&1); rc=$?
   echo "check $p: exit=$rc $(echo "$out" | grep -c '^VIOLATION') violation line(s)"
-  echo "$out" | grep -A2 '^VIOLATION' | cut -c1-260 | head -12
+  echo "$out" | grep -A2 '^VIOLATION' | cut -c1-260 | head -${MUTEST_LINES:-9}
+  rm -rf "$ev"
 done
